@@ -169,7 +169,7 @@ class Engine:
                 elif os.path.dirname(p).endswith(b"/state") and "O_CREAT" in flags:
                     tmpfd, tmppath = e["ret"], p
                     m = re.search(r",\s*0(\d{3})\)", flags)
-                    if m and m.group(1) not in ("600",):
+                    if m and m.group(1)[1:] != "00":
                         bad.append("temporary file created with mode 0%s (secret-bearing files must be owner-only)" % m.group(1))
             elif n in ("write", "pwrite64"):
                 fd = e["raw"].split(",")[0].strip()
@@ -185,8 +185,9 @@ class Engine:
                 if fd == tmpfd:
                     synced = i
             elif n == "fchmod":
-                if "0600" not in e["raw"]:
-                    bad.append("fchmod to %s (must be 0600)" % e["raw"].split(")")[0])
+                mm = re.search(r",\s*0(\d{3})", e["raw"])
+                if mm and mm.group(1)[1:] != "00":
+                    bad.append("fchmod to 0%s (secret-bearing files must be owner-only)" % mm.group(1))
             elif n in ("renameat", "renameat2", "rename") and len(e["strs"]) >= 2:
                 src, dst = e["strs"][0], e["strs"][1]
                 if dst.endswith(b"/" + live):
